@@ -1,7 +1,7 @@
 (* Dispatch.v -- single entry point of the executable model: opcode * argument -> result.
    Used identically by the extracted OCaml driver and by in-Coq vm_compute samples. *)
 From Coq Require Import List ZArith.
-From Yv Require Import Base.Sx Run.RunSym Run.RunGeom Run.RunCache Run.RunTrunc Run.RunStruct Run.RunBlock.
+From Yv Require Import Base.Sx Run.RunSym Run.RunGeom Run.RunCache Run.RunTrunc Run.RunStruct Run.RunBlock Run.RunFermi.
 Import ListNotations.
 Open Scope Z_scope.
 
@@ -20,6 +20,9 @@ Definition run (op : Z) (arg : sx) : sx :=
   | 32 => run_mask_blocks arg
   | 40 => run_wf_struct arg
   | 50 => run_blin arg
+  | 60 => run_swap_parity arg
+  | 61 => run_swap_charge_parity arg
+  | 62 => run_sign_canonical arg
   | _ => sErr 999
   end.
 
